@@ -945,6 +945,14 @@ func main() {
 			outs := make([][]*Step, len(cases))
 			errs := make([]error, len(cases))
 			var wg sync.WaitGroup
+			// the silent network drop is noticed by the keep-alive, which takes most of a minute
+			var stallOut []*Step
+			var stallErr error
+			wg.Add(1)
+			go func() {
+				defer wg.Done()
+				stallErr = runStall(func(s *Step) { stallOut = append(stallOut, s) })
+			}()
 			for i, c := range cases {
 				wg.Add(1)
 				go func(i int, c ex) {
@@ -960,6 +968,12 @@ func main() {
 				for _, s := range outs[i] {
 					emit(s)
 				}
+			}
+			if stallErr != nil {
+				fail(stallErr)
+			}
+			for _, s := range stallOut {
+				emit(s)
 			}
 		}
 	case "stoporder":
